@@ -134,7 +134,7 @@ Walk(mm, M, ci, mi, cbi, acc) ==
            \cup (IF mi > Len(M) \/ ~DecOk(RExpand(RTake(M[mi].p, SMALL))).ok THEN {V("C03", l, "ping not answered with OK")} ELSE {}))
     ELSE IF f \in {24, 25} THEN Walk(mm, M, ci + 1, mi, IF f = 25 THEN cbi + 1 ELSE cbi, acc)
     ELSE IF f = 1 THEN [mi |-> mi, viol |-> acc]
-    ELSE IF cbi > Len(mm.cbs) THEN [mi |-> mi, viol |-> acc \cup {V("C02", l, "command without its callback")}]
+    ELSE IF cbi > Len(mm.cbs) THEN [mi |-> mi, viol |-> acc \cup {V("C02", l, "command without its callback"), V("C01", l, "a command never reached the shim")}]
     ELSE LET cb == mm.cbs[cbi] IN
       IF f = 22 THEN \* prepare: decode the (small) reply to find its extent
         LET small == [j \in 1..(Len(M) - mi + 1) |-> Flat([M[mi + j - 1] EXCEPT !.p = RTake(@, SMALL)])]
@@ -208,7 +208,9 @@ Step ==
                         ELSE IF partial /\ ~mm.badfrag /\ ~mm.fault /\ e.result = "ok"
                              THEN {V("C19", l, "run_on returned Ok although the stream ended inside a multi-packet message (" \o ToString(RLen(mm.inb)) \o " bytes pending)")}
                         ELSE IF expectErr /\ e.result = "ok" THEN {V("C20", l, "out-of-order fragments accepted silently")}
-                        ELSE IF ~expectErr /\ e.result # "ok" THEN {V("C19", l, "run_on returned an error on a fault-free conformant conversation")}
+                        ELSE IF ~expectErr /\ e.result # "ok"
+                             THEN {V("C19", l, "run_on returned an error on a fault-free conformant conversation"),
+                                   V("C01", l, "a well-formed command stream was not delivered to the end: run_on gave up (" \o ToString(Len(mm.cmds) - mm.di) \o " commands never dispatched)")}
                         ELSE {}
                 vout == IF expectErr \/ e.result # "ok" THEN {}
                         ELSE (IF r.rest # << >> THEN {V("C04", l, "output ends inside a packet or with an unterminated maximal packet")} ELSE {})
